@@ -33,14 +33,14 @@ func (v *defs) defOf(o types.Object) ast.Expr {
 	rhs, other := defsOf(v.info, v.body, o)
 	var real []ast.Expr
 	for _, r := range rhs {
-		if r != nil {
+		if r != nil && !zeroConst(v.info, r) { // `x := 0` / `int(0)` / "" / false / nil initialisers are the zero value
 			real = append(real, r)
 		}
 	}
-	if other != 0 || len(real) != 1 || len(rhs) > 2 {
+	if other != 0 || len(real) != 1 || len(rhs) > 3 {
 		return nil
 	}
-	if len(rhs) == 2 || o.Pos() < v.body.Pos() { // declared with its zero value, or a parameter / named result: the assignment must come first
+	if len(rhs) >= 2 || o.Pos() < v.body.Pos() { // declared with its zero value, or a parameter / named result: the assignment must come first
 		var def ast.Node
 		ast.Inspect(v.body, func(n ast.Node) bool {
 			if as, ok := n.(*ast.AssignStmt); ok {
@@ -194,16 +194,17 @@ func (v *defs) derived(from ...types.Object) map[types.Object]bool {
 			switch s := n.(type) {
 			case *ast.AssignStmt:
 				for i, l := range s.Lhs {
-					o := objOf(v.info, l)
-					if o == nil || set[o] {
-						continue
-					}
+					o := rootObj(v.info, l) // x, x.f, x[i], *x: what is stored into taints x
 					r := s.Rhs[0]
 					if len(s.Lhs) == len(s.Rhs) {
 						r = s.Rhs[i]
 					}
-					if mentions(r) {
+					if o != nil && !set[o] && mentions(r) {
 						set[o], changed = true, true
+					}
+					// a copy of a pointer / slice / map shares what it points to: both names see later stores
+					if ro := objOf(v.info, strip(v.info, r)); ro != nil && o != nil && set[o] && !set[ro] && sharing(ro.Type()) {
+						set[ro], changed = true, true
 					}
 				}
 			case *ast.ValueSpec:
@@ -225,4 +226,51 @@ func (v *defs) derived(from ...types.Object) map[types.Object]bool {
 		})
 	}
 	return set
+}
+
+// rootObj: the variable an assignable expression is rooted at (x, x.f, x[i], *x).
+func rootObj(info *types.Info, e ast.Expr) types.Object {
+	for i := 0; i < 8; i++ {
+		switch x := ast.Unparen(e).(type) {
+		case *ast.Ident:
+			return objOf(info, x)
+		case *ast.SelectorExpr:
+			e = x.X
+		case *ast.IndexExpr:
+			e = x.X
+		case *ast.StarExpr:
+			e = x.X
+		default:
+			return nil
+		}
+	}
+	return nil
+}
+
+// sharing: values of this type refer to storage that a copy shares.
+func sharing(t types.Type) bool {
+	switch t.Underlying().(type) {
+	case *types.Pointer, *types.Slice, *types.Map:
+		return true
+	}
+	return false
+}
+
+// zeroConst: e is a constant with the zero value of its type (0, "", false, nil), possibly converted.
+func zeroConst(info *types.Info, e ast.Expr) bool {
+	tv, ok := info.Types[ast.Unparen(e)]
+	if !ok {
+		return false
+	}
+	if tv.IsNil() {
+		return true
+	}
+	if tv.Value == nil {
+		return false
+	}
+	switch tv.Value.ExactString() {
+	case "0", `""`, "false":
+		return true
+	}
+	return false
 }
